@@ -28,7 +28,7 @@ def strategy(tier):
         spec = draw(gen.charts(max_states=16 if big else 12, mix=MIX, p_sends=0.3, p_aguard=0.15, p_notify=0.1,
                                send_delays=True, p_orth_root=0.4))
         ops = draw(gen.histories(spec, 8, 25, advances=True, delays=True, p_all=0.35))
-        return {'spec': spec, 'ops': ops}
+        return {'spec': spec, 'ops': ops, 'faults': draw(gen.faults(ops))}
     return cases()
 
 
